@@ -208,7 +208,8 @@ class _Poly(_Modal):
             try:
                 v = sym.Lazy.choose(unstable(i), lambda: NANC, lambda: lam0(i)) if False else sym.ite(unstable(i), NANC, lam0(i))
                 if methodSy == "cor":
-                    tau = sym.neg(sym.div(sym.sub(nxseg, 1), sym.log_(sym.toF(0.01))))
+                    # written in the code's own order of operations: -(nxseg - 1) / log(0.01)   (equal terms, no solver search)
+                    tau = sym.div(sym.neg(sym.sub(nxseg, 1)), sym.log_(sym.toF(0.01)))
                     v = sym.sub(v, sym.div(1, tau))
                 return v
             finally:
@@ -252,11 +253,11 @@ class ac2mp_poly_per(_Poly):
     name = "per"
     method = "per"
 
-    def _not_blanked(me, c, A, C, dt, methodSy, nxseg):
-        w, vr = MM.eig(A)
+    def _lam_times_dt(me, c, A, C, dt, methodSy, nxseg):
         r = _Poly.spec(me, c, A, C, dt, methodSy, nxseg)
-        return (r[0], r[1], shapes(C, vr)[0], r[3])
-    canaries = {"shapes of unstable roots not blanked": spec_canary(_not_blanked)}
+        f = r[3].snapshot_fn()
+        return (r[0], r[1], r[2], Arr(r[3].axes, lambda idx: sym.mul(f(idx), dt), "complex"))
+    canaries = {"poles multiplied by dt once more": spec_canary(_lam_times_dt)}
 
 
 @register
@@ -522,6 +523,13 @@ class pLSCF_poles_3(_PolesPoly):
     NORD = 3
 
 
+@register
+class pLSCF_poles_5(_PolesPoly):
+    name = "orders 1..5"
+    NORD = 5
+    thorough_only = True
+
+
 # ----------------------------------------------------------------------------------------------------------------------
 # the numerical theorems of C01 / C05 (exact recovery on noise-free data / on an exactly rational spectrum) are statements
 # about SVD / QR / least squares in floating point: outside any contract over the reals that the verifier could discharge.
@@ -581,7 +589,7 @@ class covariance_meta(_Exact):
     name = "covariance under gain, channel order and time unit"
     bounded_reason = ("unsupported: equivariance of the whole identification (SVD, QR, pseudo-inverse, eig, Welch estimates) under scaling, permutation and re-timing is a "
                       "relational statement about floating-point kernels; the scaling-law checker planned in DESIGN section 3 was not built")
-    bounded_bound = ("3-5 channels, 3 modes, 4096 samples of noise-driven response; FDD (per, cor), EFDD, FSDD, SSIcov (cov_mm, cov_R), SSIdat, pLSCF through SingleSetup; gains 2^-20, 2^20 "
+    bounded_bound = ("3-5 channels, 3 modes, 4096 samples of noise-driven response; FDD (per, cor), EFDD, FSDD, SSIcov (cov_mm, cov_R), SSIdat, pLSCF through SingleSetup; gains 2^-34, 2^-20, 2^20, 2^30 "
                      "(exact, tolerance 1e-9), 3.7e-6, 4.2e5 (1e-5); sampling frequency x 2^-5, 2^6 (1e-9); one random channel permutation (1e-5); whole pole tables compared "
                      "column by column as sets of (frequency, damping, shape), extracted shapes unit-normalised")
     bounded_driver = {"driver": "c08_meta", "inputs": {"trials": 1, "trials_thorough": 6}}
